@@ -129,6 +129,22 @@ func CoqBytes(b []byte) string {
 	return "[" + strings.Join(s, ";") + "]"
 }
 
+// CoqHex renders bytes as a list of the per-byte constants x00..xff of Base/ImapHex.v: a reference to a constant is
+// elaborated far faster than a numeral.
+func CoqHex(b []byte) string {
+	const d = "0123456789abcdef"
+	out := make([]byte, 0, 4*len(b)+2)
+	out = append(out, '[')
+	for i, x := range b {
+		if i > 0 {
+			out = append(out, ';')
+		}
+		out = append(out, 'x', d[x>>4], d[x&15])
+	}
+	out = append(out, ']')
+	return string(out)
+}
+
 // WriteCases writes <dir>/cases.v importing the run module and printing mismatches.
 func WriteCases(dir, runModule, caseType string, cases []string, extra string) error {
 	var sb strings.Builder
